@@ -101,7 +101,7 @@ PROPS = {
                 filt=lambda k, o: k == 'R' and o in SERDE_OPS, key=lambda ops: any(o.split()[0] in SERDE_OPS for o in ops)),
     'C14': dict(fams=['crud', 'versions', 'bulk', 'suffix', 'codec'], views=['obs'], oracles=[], pyref=False,
                 filt=lambda k, o: False, key=lambda ops: True, lockstep=True),
-    'C15': dict(fams=['invalid_args', 'bulk', 'capacity', 'deep', 'codec', 'builder', 'crud', 'versions'], views=['obs'],
+    'C15': dict(fams=['invalid_args', 'bulk', 'capacity', 'deep', 'codec', 'builder', 'crud', 'versions', 'bulk_via'], views=['obs'],
                 oracles=['wellformed', 'error_preserves'], pyref=True, errors_only=True, filt=lambda k, o: k == 'R',
                 key=lambda ops: True),
     'C16': dict(fams=['par', 'fault'], views=['obs'], oracles=['par'], pyref=True, par_only=True, twin='fault', no_corr=True,
@@ -654,11 +654,47 @@ def load_known():
     return json.load(open(p)) if os.path.exists(p) else []
 
 
+def _pred_maxmap_bulk_via_extension(text):
+    """F8: the history runs on the `max` map and contains a `bulk_via` whose map holds a key >= the length the target
+    list has at that point (computed with the reference semantics)"""
+    lines = [l for l in text.splitlines() if l and not l.startswith('#')]
+    if not lines or not lines[0].startswith('config ') or lines[0].split()[3] != 'max':
+        return False
+    try:
+        hist = pyref.parse_histories(text)[0]
+        m = pyref.Machine(hist.kind, hist.n)
+    except Exception:
+        return False
+    for op in lines[1:]:
+        p = op.split()
+        if p[0] == 'bulk_via' and len(p) == 4 and p[3] != '-':
+            try:
+                reg = m.regs[int(p[1][1:])]
+                ln = len(reg.vals) if reg is not None else None
+            except Exception:
+                ln = None
+            keys = [int(x.split(':')[0]) for x in p[3].split(',')]
+            if ln is not None and any(k >= ln for k in keys):
+                return True
+        try:
+            m.step(op)
+        except Exception:
+            return False
+    return False
+
+
+KNOWN_PREDICATES = {'maxmap_bulk_via_extension': _pred_maxmap_bulk_via_extension}
+
+
 def known_match(prop, text, msg):
     for k in load_known():
         if k.get('status') != 'known' or prop not in k.get('properties', [k.get('property')]):
             continue
         ops = text
+        if k.get('predicate'):
+            if KNOWN_PREDICATES[k['predicate']](text) and re.search(k.get('message_pattern', '.'), msg):
+                return k
+            continue
         if all(re.search(p, ops, re.M) for p in k.get('history_patterns', [])) and re.search(k.get('message_pattern', '.'), msg):
             return k
     return None
@@ -848,7 +884,13 @@ def check(prop, tier, seed):
                 corr.append((i, {'obs': (0, 'the implementation trace of this history', 'differs from the model evaluated inside Coq (vm_compute): ' + kc['detail'][-400:])}))
     # ---------------- verdict
     reported = set()
-    for i, fl in findings[:50]:
+    known_idx = set()
+    # histories in the input class of a known finding: their model/implementation differences are that finding
+    for i, t in enumerate(hs):
+        if any(k.get('status') == 'known' and prop in k.get('properties', []) and k.get('predicate') and KNOWN_PREDICATES[k['predicate']](t)
+               for k in load_known()):
+            known_idx.add(i)
+    for i, fl in findings[:200]:
         text = hs[i]
         msg = fl[0].msg
         k = known_match(prop, text, msg)
@@ -856,6 +898,7 @@ def check(prop, tier, seed):
             line = 'KNOWN-FINDING: property=%s %s' % (prop, k.get('what', msg))
             if line not in known_lines:
                 known_lines.append(line)
+            known_idx.add(i)
             continue
         if len(violations) >= 3:
             continue
@@ -870,7 +913,8 @@ def check(prop, tier, seed):
         path = write_replay(prop, 'failing-input', small, dict(step=fl[0].op, oracle=msg, seed=seed, family=fam_of[i],
                                                                found_by='independent oracle on the implementation trace'))
         violations.append((path, ''))
-    if not violations and not known_lines:
+    corr = [(i, rel) for i, rel in corr if i not in known_idx]
+    if not violations:
         broken = None
         if not pr['ok']:
             broken = dict(theorem=pr.get('broken', 'props/%s.v' % prop), detail=pr['detail'][:1500])
@@ -959,6 +1003,8 @@ def check(prop, tier, seed):
             correspondence_differences=len(corr),
             drift_in_other_views=drift_count,
             oracle_findings=len(findings),
+            known_findings=known_lines,
+            histories_in_a_known_finding_class=len(known_idx),
             run_problems=[str(p)[:300] for p in problems[:5]],
         ),
         assumptions=['collision_free H / nonzero_hash H where a memoised hash is compared', 'element kinds satisfy ek_wf / ek_codec_on (proved for the concrete kinds)',
